@@ -233,3 +233,37 @@ C(f"{F}:Parser.expect_forced#wf", params={**P, "res": "opt[Tok]", "expectation":
 
 C(f"{F}:Parser.check_version#wf", params={**P, "min_version": "version", "error_msg": "str", "node": "val"}, returns="val", requires=TKW,
   raises=["SyntaxError"], raises_ensures=[WF], modifies=ERRMOD, properties=["C11"])
+
+# ---------------------------------------------------------------------------------------------- subprocess argument pieces (C04, C06)
+PIECE = "union[Tok|obj:ast.Starred|obj:PosNode]"
+C(f"{F}:Parser._append_node_or_token", params={"self": "obj:Parser", "tree": "opt[union[obj:ast.Constant|obj:ast.Starred|obj:ast.Tuple|obj:PosNode]]", "cmd": PIECE},
+  ensures=[
+      # C04/C06: the merged piece spans from where the pieces so far START to where the new piece ENDS (line and column), whatever kinds they are
+      "node_end(result) == node_end(cmd)",
+      "implies(not is_none(tree), node_start(result) == node_start(tree))", "implies(is_none(tree), node_start(result) == node_start(cmd))",
+      # C06: adjacent plain words are one string argument: the text of the second is appended to the first
+      "implies(not is_none(tree) and isinstance(tree, ast.Constant) and isinstance(cmd, TokenInfo), isinstance(result, ast.Constant) and result.value == tree.value + cmd.string)",
+      "implies(is_none(tree) and isinstance(cmd, TokenInfo), isinstance(result, ast.Constant) and result.value == cmd.string)",
+      "implies(is_none(tree) and not isinstance(cmd, TokenInfo), result is cmd)",
+  ], raises=[], pure=True, properties=["C04", "C06"])
+
+# ---------------------------------------------------------------------------------------------- implicit concatenation of plain literals (C01, C02)
+MIX = "any(le_isbytes(parts[j].string) != le_isbytes(parts[0].string) for j in range(1, len(parts)))"
+C(f"{F}:Parser._concat_strings_in_constant", params={"self": "obj:Parser", "parts": "seq[Tok]"},
+  requires=TKW + ["len(parts) >= 1", "all(tok_wf(parts[j]) for j in range(len(parts)))"],
+  requires_assumed={"pos_le(parts[0].start, parts[len(parts) - 1].end)": "C08: tokens appear in non-decreasing position order"},
+  witness={MIX: {"j": "1 + _i"}}, modifies=ERRMOD,
+  loops={0: {"inv": TKW + ["lit_isbytes(s) == le_isbytes(parts[0].string)", "all(le_isbytes(parts[j].string) == le_isbytes(parts[0].string) for j in range(1, 1 + _i))",
+                     "lit_val(s) == lit_fold(parts, 1 + _i)"],
+             "types": {"s": "lit", "part": "lit", "ss": "Tok"}}},
+  ensures=[
+      # C01: one Constant spanning from the first literal's start to the last literal's end ...
+      "isinstance(result, ast.Constant)", "node_start(result) == parts[0].start", "node_end(result) == parts[len(parts) - 1].end",
+      # ... whose value is the left-to-right concatenation of the evaluated pieces (every piece, in order, exactly once) ...
+      "lit_val(result.value) == lit_fold(parts, len(parts))", "lit_isbytes(result.value) == le_isbytes(parts[0].string)",
+      # ... and whose `kind` is 'u' exactly when the FIRST literal carries the u prefix (CPython's rule)
+      "has_field(result, 'kind') == parts[0].string.startswith('u')", "implies(parts[0].string.startswith('u'), result.kind == 'u')",
+      # C02: str and bytes pieces are never mixed in an accepted literal
+      f"not ({MIX})",
+  ],
+  raises_when={"SyntaxError": MIX}, raises=["SyntaxError"], properties=["C01", "C02", "C10"])
